@@ -314,53 +314,95 @@ theorem keygen_mode_0600 (a : KArgs) (w : World) (o : KOracle) (t : Path) (hv : 
   | none => rw [hop] at h; exact ⟨_, h.2⟩
   | some segs => rw [hop] at h; exact ⟨_, h.1⟩
 
+/-! ## The copy loops are modelled as one write
+
+`io.Copy`, the STREAM writer, the armor writer and age-keygen's `-y` loop issue
+many non-empty writes and stop at the first error; the model of `age` hands the
+whole byte string to the destination at once.  For the destinations of the
+model that makes no difference to the final content, the bytes standard output
+accepted, or success: -/
+
+/-- writing segment by segment to an open file = writing the concatenation at once -/
+theorem segmentation_irrelevant_file (t : Path) (m : Nat) (segs : List Bytes) (p : Proc) (c0 : Bytes)
+    (hg : p.w.get t = .file c0 m) (hcap : ∀ L, p.w.fsize = some L → c0.length ≤ L) :
+    (kwriteLines (.file t) p segs).1.w.get t = (p.writeFile t segs.flatten).1.w.get t ∧
+    (kwriteLines (.file t) p segs).2 = (p.writeFile t segs.flatten).2 := by
+  obtain ⟨h1, h2, _⟩ := kwriteLines_file t m segs p c0 hg hcap
+  simp [Proc.writeFile, hg, h1, h2]
+
+/-- ... and to standard output (a device that rejects everything rejects the first
+    segment just as it rejects the whole; with no segment at all nothing is written) -/
+theorem segmentation_irrelevant_stdout (segs : List Bytes) (p : Proc) (hne : segs ≠ [])
+    (hinv : ∀ c, p.w.stdout = .limited (some c) → p.emitted.length ≤ c) :
+    (kwriteLines .stdout p segs).1.emitted = (p.writeStdout segs.flatten).1.emitted ∧
+    (kwriteLines .stdout p segs).2 = (p.writeStdout segs.flatten).2 := by
+  obtain ⟨_, h⟩ := kwriteLines_stdout segs p hinv
+  cases hso : p.w.stdout with
+  | terminal => rw [hso] at h; simp [Proc.writeStdout, hso, h.1, h.2]
+  | devFull =>
+    rw [hso] at h
+    have : segs.isEmpty = false := by cases segs <;> simp_all
+    simp [Proc.writeStdout, hso, h.1, h.2, this]
+  | limited cap => rw [hso] at h; simp [Proc.writeStdout, hso, h.1, h.2]
+
 /-! ## Non-vacuity: concrete worlds -/
 
 section Examples
 
--- byte strings are written out (string literals do not reduce under `decide`):
--- "t" = [116], "in" = [105, 110], "key" = [107, 101, 121], "old" = [111, 108, 100], "sub" = [115, 117, 98],
--- "out" = [111, 117, 116], "new" = [110, 101, 119]
+-- names and paths as bytes (string literals do not reduce under `decide`)
+abbrev nT : Bytes := [116]                                        -- "t"
+abbrev nIn : Bytes := [105, 110]                                  -- "in"
+abbrev nKey : Bytes := [107, 101, 121]                            -- "key"
+abbrev nOld : Bytes := [111, 108, 100]                            -- "old"
+abbrev nSub : Bytes := [115, 117, 98]                             -- "sub"
+abbrev nOut : Bytes := [111, 117, 116]                            -- "out"
+abbrev nNew : Bytes := [110, 101, 119]                            -- "new"
+abbrev pNodirOut : Bytes := [110, 111, 100, 105, 114, 47, 111, 117, 116]   -- "nodir/out"
+abbrev pSubUpIn : Bytes := [115, 117, 98, 47, 46, 46, 47, 105, 110]        -- "sub/../in"
+abbrev pAbsKey : Bytes := [47, 116, 47, 47, 107, 101, 121]                 -- "/t//key"
+abbrev devel : Bytes := [40, 100, 101, 118, 101, 108, 41, 10]              -- "(devel)\n"
 
-/-- /t is the working directory; it holds an input, a key file and an old output -/
+/-- /t is the working directory; it holds an input, a key file, an old output and a directory -/
 def w0 : World :=
-  { cwd := [[116]],
-    nodes := [([[116]], .dir), ([[116], [105, 110]], .file [1, 2, 3] 0o644), ([[116], [107, 101, 121]], .file [7] 0o600),
-              ([[116], [111, 108, 100]], .file [9, 9] 0o600), ([[116], [115, 117, 98]], .dir)] }
+  { cwd := [nT],
+    nodes := [([nT], .dir), ([nT, nIn], .file [1, 2, 3] 0o644), ([nT, nKey], .file [7] 0o600),
+              ([nT, nOld], .file [9, 9] 0o600), ([nT, nSub], .dir)] }
 
 def o0 : Oracle :=
   { recipientOK := fun _ => true, recipientsFileOK := fun _ => true, identityFileOK := fun _ => true,
     pluginOK := fun _ => true, passphraseOK := false, wrapOK := true,
-    dec := .ok [10, 20, 30] none, ct := [5, 6, 7, 8], flushed := [5, 6], versionLine := [40, 100, 101, 118, 101, 108, 41, 10] }
+    dec := .ok [10, 20, 30] none, ct := [5, 6, 7, 8], flushed := [5, 6], versionLine := devel }
 
+/-- the oracle hypotheses are satisfiable -/
 theorem o0_wf : o0.WF := ⟨by decide, ⟨[7, 8], rfl⟩⟩
 
+/-- `age -d -i key -o <out> in` -/
 def decArgs (out : Bytes) : Args :=
-  { decrypt := true, identities := [(.i, [107, 101, 121])], positional := [[105, 110]], output := out }
+  { decrypt := true, identities := [(.i, nKey)], positional := [nIn], output := out }
 
 /-- a successful decryption to a new file: exit 0 and the file holds the plaintext, mode 0644 -/
-example : (run (decArgs [111, 117, 116]) w0 o0).exit = 0 ∧
-    (run (decArgs [111, 117, 116]) w0 o0).world.get [[116], [111, 117, 116]] = .file [10, 20, 30] 0o644 := by decide
+example : (run (decArgs nOut) w0 o0).exit = 0 ∧
+    (run (decArgs nOut) w0 o0).world.get [nT, nOut] = .file [10, 20, 30] 0o644 := by decide
 
 /-- ... and over an existing file: content replaced, mode kept -/
-example : (run (decArgs [111, 108, 100]) w0 o0).world.get [[116], [111, 108, 100]] = .file [10, 20, 30] 0o600 := by decide
+example : (run (decArgs nOld) w0 o0).world.get [nT, nOld] = .file [10, 20, 30] 0o600 := by decide
 
-/-- a refused header leaves the existing file alone (hypotheses of `header_refusal_no_touch` are satisfiable) -/
-example : (run (decArgs [111, 108, 100]) w0 { o0 with dec := .headerRefused }).exit = 1 ∧
-    (run (decArgs [111, 108, 100]) w0 { o0 with dec := .headerRefused }).world.get [[116], [111, 108, 100]] = .file [9, 9] 0o600 := by
+/-- a refused header leaves the existing file alone (the hypotheses of `header_refusal_no_touch` are satisfiable) -/
+example : (run (decArgs nOld) w0 { o0 with dec := .headerRefused }).exit = 1 ∧
+    (run (decArgs nOld) w0 { o0 with dec := .headerRefused }).world.get [nT, nOld] = .file [9, 9] 0o600 := by
   decide
 
 /-- a payload failure after 2 bytes leaves a 2-byte prefix and a non-zero status -/
-example : (run (decArgs [111, 117, 116]) w0 { o0 with dec := .ok [10, 20, 30] (some 2) }).exit = 1 ∧
-    (run (decArgs [111, 117, 116]) w0 { o0 with dec := .ok [10, 20, 30] (some 2) }).world.get [[116], [111, 117, 116]] =
+example : (run (decArgs nOut) w0 { o0 with dec := .ok [10, 20, 30] (some 2) }).exit = 1 ∧
+    (run (decArgs nOut) w0 { o0 with dec := .ok [10, 20, 30] (some 2) }).world.get [nT, nOut] =
       .file [10, 20] 0o644 := by decide
 
 /-- an output in a directory that does not exist: non-zero -/
-example : (run (decArgs [110, 111, 100, 105, 114, 47, 111, 117, 116]) w0 o0).exit = 1 := by decide
+example : (run (decArgs pNodirOut) w0 o0).exit = 1 := by decide
 
 /-- RLIMIT_FSIZE = 2: two bytes are left behind, non-zero -/
-example : (run (decArgs [111, 117, 116]) { w0 with fsize := some 2 } o0).exit = 1 ∧
-    (run (decArgs [111, 117, 116]) { w0 with fsize := some 2 } o0).world.get [[116], [111, 117, 116]] = .file [10, 20] 0o644 := by
+example : (run (decArgs nOut) { w0 with fsize := some 2 } o0).exit = 1 ∧
+    (run (decArgs nOut) { w0 with fsize := some 2 } o0).world.get [nT, nOut] = .file [10, 20] 0o644 := by
   decide
 
 /-- standard output that closes after one byte -/
@@ -368,42 +410,44 @@ example : (run (decArgs []) { w0 with stdout := .limited (some 1) } o0).exit = 1
     (run (decArgs []) { w0 with stdout := .limited (some 1) } o0).stdout = [10] := by decide
 
 /-- the output spelled `sub/../in` is the input: refused, nothing touched -/
-example : (run (decArgs [115, 117, 98, 47, 46, 46, 47, 105, 110]) w0 o0).exit = 1 ∧
-    (run (decArgs [115, 117, 98, 47, 46, 46, 47, 105, 110]) w0 o0).world.get [[116], [105, 110]] = .file [1, 2, 3] 0o644 := by decide
+example : (run (decArgs pSubUpIn) w0 o0).exit = 1 ∧
+    (run (decArgs pSubUpIn) w0 o0).world.get [nT, nIn] = .file [1, 2, 3] 0o644 := by decide
 
-/-- ... and so is the key file spelled with its absolute path and a doubled slash -/
-example : (run (decArgs [47, 116, 47, 47, 107, 101, 121]) w0 o0).exit = 1 := by decide
+/-- ... and so is the key file spelled `/t//key` -/
+example : (run (decArgs pAbsKey) w0 o0).exit = 1 := by decide
 
-/-- an encryption: the ciphertext ends up in the file -/
-example : (run { recipients := [[97, 103, 101, 49, 46, 46, 46]], positional := [[105, 110]], output := [111, 117, 116] } w0 o0).world.get
-    [[116], [111, 117, 116]] = .file [5, 6, 7, 8] 0o644 := by decide
+/-- an encryption (`age -r … -o out in`): the ciphertext ends up in the file -/
+example : (run { recipients := [[97, 103, 101, 49]], positional := [nIn], output := nOut } w0 o0).world.get
+    [nT, nOut] = .file [5, 6, 7, 8] 0o644 := by decide
 
 /-- `-version` is printed with an unchecked Println: exit 0 although /dev/full took nothing.
     This is why the exit-status theorems carry `a.version = false`. -/
 theorem version_unchecked : (run { version := true } { w0 with stdout := .devFull } o0).exit = 0 ∧
     (run { version := true } { w0 with stdout := .devFull } o0).stdout = [] := by decide
 
-def k0 : KOracle := { keyFile := [35, 32, 99, 114, 101, 97, 116, 101, 100, 10, 35, 32, 112, 117, 98, 108, 105, 99, 32, 107, 101, 121, 10, 65, 71, 69, 45, 83, 69, 67, 82, 69, 84, 45, 75, 69, 89, 45, 49, 10], converted := some [[97, 103, 101, 49, 97, 10], [97, 103, 101, 49, 98, 10]],
-                      versionLine := [40, 100, 101, 118, 101, 108, 41, 10] }
+abbrev line1 : Bytes := [97, 103, 101, 49, 97, 10]    -- "age1a\n"
+abbrev line2 : Bytes := [97, 103, 101, 49, 98, 10]    -- "age1b\n"
+
+def k0 : KOracle := { keyFile := [35, 32, 107, 101, 121, 10], converted := some [line1, line2], versionLine := devel }
 
 theorem k0_wf : k0.WF :=
   ⟨by decide, by
     intro ls h
-    have : ls = [[97, 103, 101, 49, 97, 10], [97, 103, 101, 49, 98, 10]] := by simpa [k0] using h.symm
+    have : ls = [line1, line2] := by simpa [k0] using h.symm
     subst this
     decide⟩
 
 /-- age-keygen -o new: created with mode 0600 under umask 022, holding the whole key file -/
-example : (krun { output := [110, 101, 119] } w0 k0).exit = 0 ∧
-    (krun { output := [110, 101, 119] } w0 k0).world.get [[116], [110, 101, 119]] = .file k0.keyFile 0o600 := by decide
+example : (krun { output := nNew } w0 k0).exit = 0 ∧
+    (krun { output := nNew } w0 k0).world.get [nT, nNew] = .file k0.keyFile 0o600 := by decide
 
 /-- age-keygen -o old: refused, untouched -/
-example : (krun { output := [111, 108, 100] } w0 k0).exit = 1 ∧
-    (krun { output := [111, 108, 100] } w0 k0).world.get [[116], [111, 108, 100]] = .file [9, 9] 0o600 := by decide
+example : (krun { output := nOld } w0 k0).exit = 1 ∧
+    (krun { output := nOld } w0 k0).world.get [nT, nOld] = .file [9, 9] 0o600 := by decide
 
-/-- age-keygen -y to a pipe that closes after 8 bytes: non-zero, eight bytes got out -/
-example : (krun { convert := true, positional := [[107, 101, 121]] } { w0 with stdout := .limited (some 8) } k0).exit = 1 ∧
-    (krun { convert := true, positional := [[107, 101, 121]] } { w0 with stdout := .limited (some 8) } k0).stdout =
+/-- age-keygen -y key to a pipe that closes after 8 bytes: non-zero, eight bytes got out -/
+example : (krun { convert := true, positional := [nKey] } { w0 with stdout := .limited (some 8) } k0).exit = 1 ∧
+    (krun { convert := true, positional := [nKey] } { w0 with stdout := .limited (some 8) } k0).stdout =
       [97, 103, 101, 49, 97, 10, 97, 103] := by decide
 
 end Examples
